@@ -965,17 +965,78 @@ func (fn *Fn) inSeen(fs *FactSet, m *types.Var, key string) bool {
 // description and the key as a selector chain applied to the element (e.g. "ID()",
 // "Identity().GetAddress()").
 func dedupLoop(fn *Fn, srcParam int) (bool, string, string) {
-	var rs *ast.RangeStmt
+	// the loop over the source list: `for _, x := range src`, or the index form
+	// `for i := 0; i < len(src) [&& ...]; i++ { x := src[i]; ... }` (every element in order,
+	// the index moved only by the post statement)
+	srcProv := fmt.Sprintf("param#%d", srcParam)
+	var loopBody *ast.BlockStmt
+	var elem *types.Var
+	elemProv := ""
 	for _, n := range shallowNodes(fn.Body) {
-		if r, ok := n.(*ast.RangeStmt); ok && rs == nil && fn.Prov(r.X) == fmt.Sprintf("param#%d", srcParam) {
-			rs = r
+		if loopBody != nil {
+			break
+		}
+		switch r := n.(type) {
+		case *ast.RangeStmt:
+			if fn.Prov(r.X) == srcProv && r.Value != nil {
+				loopBody, elem, elemProv = r.Body, fn.varOf(r.Value), fn.Prov(r.Value)
+			}
+		case *ast.ForStmt:
+			init, ok1 := r.Init.(*ast.AssignStmt)
+			post, ok2 := r.Post.(*ast.IncDecStmt)
+			if !ok1 || !ok2 || r.Cond == nil || len(init.Lhs) != 1 || len(init.Rhs) != 1 || post.Tok != token.INC {
+				continue
+			}
+			iv := fn.varOf(init.Lhs[0])
+			if v0, _ := fn.ConstVal(init.Rhs[0]); iv == nil || v0 != "0" || fn.varOf(post.X) != iv {
+				continue
+			}
+			bounded := false
+			for _, cj := range conjuncts(r.Cond) {
+				if be, ok := ast.Unparen(cj).(*ast.BinaryExpr); ok && be.Op == token.LSS && fn.varOf(be.X) == iv && isLenOf(fn, be.Y, func(x ast.Expr) bool { return fn.Prov(x) == srcProv }) {
+					bounded = true
+				}
+			}
+			if !bounded {
+				continue
+			}
+			// the index is not written in the body; the element is a local defined once as src[i]
+			written := false
+			var ev *types.Var
+			for _, m := range shallowNodes(r.Body) {
+				switch y := m.(type) {
+				case *ast.AssignStmt:
+					for j, l := range y.Lhs {
+						if fn.varOf(l) == iv {
+							written = true
+						}
+						if j < len(y.Rhs) && len(y.Lhs) == len(y.Rhs) {
+							if ix, ok := ast.Unparen(y.Rhs[j]).(*ast.IndexExpr); ok && fn.Prov(ix.X) == srcProv && fn.varOf(ix.Index) == iv {
+								if lv := fn.varOf(l); lv != nil && len(fn.defsOf(lv)) == 1 {
+									ev = lv
+								}
+							}
+						}
+					}
+				case *ast.IncDecStmt:
+					if fn.varOf(y.X) == iv {
+						written = true
+					}
+				}
+			}
+			if !written && ev != nil {
+				loopBody, elem = r.Body, ev
+				elemProv = fn.Prov(&ast.Ident{NamePos: r.Body.Pos()}) // replaced just below
+				for _, d := range fn.defsOf(ev) {
+					elemProv = fn.Prov(d.rhs)
+				}
+			}
 		}
 	}
-	if rs == nil || rs.Value == nil {
+	if loopBody == nil || elem == nil {
 		return false, "range over the source list not found", ""
 	}
-	elem := fn.varOf(rs.Value)
-	elemProv := fn.Prov(rs.Value)
+	rs := struct{ Body *ast.BlockStmt }{loopBody}
 	var appends []*ast.CallExpr
 	ast.Inspect(rs.Body, func(n ast.Node) bool {
 		if call, ok := n.(*ast.CallExpr); ok {
@@ -1291,6 +1352,10 @@ func runC30(c *Ctx) {
 					return false
 				}
 				for _, d := range defs {
+					// the looked-up entry itself (a table of plain hashes), or a field of it
+					if d.rhs != nil && ast.Unparen(d.rhs) == ast.Expr(tableIdx) && d.idx == 0 {
+						continue
+					}
 					if d.rhs == nil || d.multi || !fromTable(d.rhs) {
 						return false
 					}
@@ -1457,6 +1522,9 @@ func runC30(c *Ctx) {
 			name := constName(sg, kv.Key)
 			keys[name] = true
 			hash, size := "", ""
+			if strings.HasSuffix(typeStr(sg, kv.Value), "crypto.Hash") {
+				hash = constName(sg, kv.Value)
+			}
 			if cl, ok := kv.Value.(*ast.CompositeLit); ok {
 				for _, fe := range cl.Elts {
 					v := fe
@@ -1735,10 +1803,30 @@ func runC51(c *Ctx) {
 		})
 		c.Ob("offer-bound", "GetNodes#response-from-jobs", r.Pos(), okResp, "the response lists exactly the job results")
 		// every error of the jobs was inspected: the range over errors precedes
-		var errLoop *ast.RangeStmt
+		// (a range over the errors, or an index loop bounded by their number)
+		type errLoopT struct {
+			Body *ast.BlockStmt
+			X    ast.Node
+		}
+		var errLoop *errLoopT
 		ast.Inspect(gn.Body, func(n ast.Node) bool {
-			if rs, ok := n.(*ast.RangeStmt); ok && gn.Prov(rs.X) == "call:util/promise.All()#1" {
-				errLoop = rs
+			switch x := n.(type) {
+			case *ast.RangeStmt:
+				if gn.Prov(x.X) == "call:util/promise.All()#1" {
+					errLoop = &errLoopT{x.Body, x.X}
+				}
+			case *ast.ForStmt:
+				if x.Cond != nil {
+					for _, cj := range conjuncts(x.Cond) {
+						if be, ok := ast.Unparen(cj).(*ast.BinaryExpr); ok && be.Op == token.LSS && isLenOf(gn, be.Y, func(e ast.Expr) bool { return gn.Prov(e) == "call:util/promise.All()#1" }) {
+							if init, ok := x.Init.(*ast.AssignStmt); ok && len(init.Rhs) == 1 {
+								if v0, _ := gn.ConstVal(init.Rhs[0]); v0 == "0" {
+									errLoop = &errLoopT{x.Body, x.Cond}
+								}
+							}
+						}
+					}
+				}
 			}
 			return true
 		})
